@@ -596,6 +596,31 @@ pub mod verif_hooks {
             v.push(s)
         }
     }
+    static JITTER: std::sync::atomic::AtomicU64 = std::sync::atomic::AtomicU64::new(0);
+    /// Seeds the scheduling jitter (0 = off).
+    pub fn set_jitter(seed: u64) {
+        JITTER.store(seed, std::sync::atomic::Ordering::SeqCst);
+    }
+    /// Called before lock acquisitions and completion checks of the sieves:
+    /// yields or sleeps a pseudo-random short time to widen the set of interleavings.
+    pub fn jitter() {
+        use std::sync::atomic::Ordering;
+        let s = JITTER.load(Ordering::Relaxed);
+        if s == 0 {
+            return;
+        }
+        // xorshift; races on the state only add noise
+        let mut x = s;
+        x ^= x << 13;
+        x ^= x >> 7;
+        x ^= x << 17;
+        JITTER.store(x | 1, Ordering::Relaxed);
+        match x % 8 {
+            0 | 1 => std::thread::yield_now(),
+            2 => std::thread::sleep(std::time::Duration::from_micros(x >> 8 & 0xff)),
+            _ => {}
+        }
+    }
     pub fn list(l: &[Uint]) -> String {
         if l.is_empty() {
             return "-".into();
